@@ -210,6 +210,11 @@ fn get_factor(
             })
         });
     if let Some(factor) = factor {
+        // NaN se interpreta como texto numérico pero no es un factor de paso válido
+        if factor.ren.is_nan() || factor.nren.is_nan() || factor.co2.is_nan() {
+            eprintln!("ERROR: factor de paso incorrecto para {}: {}", meta, factor);
+            exit(exitcode::DATAERR);
+        }
         components.set_meta(
             meta,
             &format!("{:.3}, {:.3}, {:.3}", factor.ren, factor.nren, factor.co2),
